@@ -534,7 +534,19 @@ func (v *Value) EqualValueTo(other *Value) bool {
 	// be used here: https://pkg.go.dev/reflect#Value.Comparable
 	return v.val.CanInterface() && other.val.CanInterface() &&
 		v.val.Type().Comparable() && other.val.Type().Comparable() &&
-		v.Interface() == other.Interface()
+		interfacesEqual(v.Interface(), other.Interface())
+}
+
+// interfacesEqual compares two values with ==. A comparable type can still hold something
+// that is not (a struct or array with an interface-typed member that contains a slice, map
+// or func); Go panics on comparing those, they are reported as not equal instead.
+func interfacesEqual(a, b any) (equal bool) {
+	defer func() {
+		if recover() != nil {
+			equal = false
+		}
+	}()
+	return a == b
 }
 
 type sortedKeys []reflect.Value
